@@ -166,8 +166,10 @@ func (o *txObs) outcome() string {
 // firstRead is the index of the first statement that reads data.
 func (o *txObs) firstRead() int {
 	for i := range o.Stmts {
-		switch o.Prog.Stmts[i].Kind {
-		case m.Savepoint, m.RollbackTo, m.Release:
+		// savepoint statements read nothing; DDL reads only the catalog, which the
+		// transaction got at BEGIN
+		switch s := o.Prog.Stmts[i]; {
+		case s.Kind == m.Savepoint || s.Kind == m.RollbackTo || s.Kind == m.Release || s.IsDDL():
 		default:
 			return i
 		}
@@ -241,7 +243,10 @@ func (k *checker) explainUncommitted(o *txObs) {
 		fr = 0
 	}
 	if fr < 0 {
-		return
+		if len(o.Stmts) == 0 {
+			return
+		}
+		fr = 0 // only DDL / savepoint statements: their outcomes depend on the catalog the transaction got at BEGIN
 	}
 	lo, hi := o.L, k.last
 	if !o.Prog.Script {
@@ -311,11 +316,16 @@ func (k *checker) perUnit(o *txObs, lo uint64, q quirks) bool {
 	}
 	units := map[string]uint64{}
 	var names []string
+	dataSeen := map[string]bool{}
 	for i := range o.Stmts {
 		if u := unitOf(i); u != "" {
 			if _, ok := units[u]; !ok {
-				units[u] = o.Stmts[i].Frontier
 				names = append(names, u)
+			}
+			// the unit's rows are snapshotted by its first statement that is not DDL
+			if !dataSeen[u] {
+				units[u] = o.Stmts[i].Frontier
+				dataSeen[u] = !p.Stmts[i].IsDDL()
 			}
 		}
 	}
